@@ -227,6 +227,46 @@ def translate(formula):
   return Spec('valid', code=code, features=feats)
 
 
+_BLANK_LINE_4 = re.compile(r'\n {4}(?=[^\S\n]*\n)')
+
+
+def with_blank_string_lines_unindented(formula):
+  """The formula text as the known engine defect reads it: inside multi-line string literals every
+  whitespace-only line that starts with 4 spaces loses them. Returns None when nothing changes."""
+  text = dedent(formula)
+  lines = text.split('\n')
+  starts = [0]
+  for ln in lines:
+    starts.append(starts[-1] + len(ln) + 1)
+  try:
+    toks = list(tokenize.generate_tokens(io.StringIO(text).readline))
+  except Exception:
+    return None
+  ranges = []
+  depth = 0
+  begin = None
+  for t in toks:
+    if t.type == tokenize.STRING and depth == 0:
+      ranges.append((starts[t.start[0] - 1] + t.start[1], starts[t.end[0] - 1] + t.end[1]))
+    elif t.type == tokenize.FSTRING_START:
+      if depth == 0:
+        begin = starts[t.start[0] - 1] + t.start[1]
+      depth += 1
+    elif t.type == tokenize.FSTRING_END:
+      depth -= 1
+      if depth == 0 and begin is not None:
+        ranges.append((begin, starts[t.end[0] - 1] + t.end[1]))
+  out = []
+  pos = 0
+  for a, b in ranges:
+    out.append(text[pos:a])
+    out.append(_BLANK_LINE_4.sub('\n', text[a:b]))
+    pos = b
+  out.append(text[pos:])
+  res = ''.join(out)
+  return res if res != text else None
+
+
 class Rec(object):
   __slots__ = ('A', 'G', 'id')
   def __init__(self, id, A):
@@ -303,6 +343,8 @@ def raise_signature(formula, err):
     return 'RecursionError-deeply-nested-text'
   if isinstance(err, MemoryError):
     return 'MemoryError'
+  if isinstance(err, IndexError) and dedent(formula) != formula and formula.endswith('\n'):
+    return 'IndexError-syntax-error-position-vs-dedented-text'
   if isinstance(err, SyntaxError):
     if re.search(r'\r(?!\n)', formula):
       return 'lone-CR-ends-line-for-python-only'
@@ -340,7 +382,7 @@ def witnesses(doc, avals):
   return None
 
 
-def check_f(doc, spec, avals, kind):
+def check_f(doc, spec, avals, kind, formula):
   """None or (sig, msg, detail) for column F against the independent translation."""
   tab = doc.view('Tab')
   col = tab.get('F')
@@ -361,6 +403,18 @@ def check_f(doc, spec, avals, kind):
     return None
   if kind != 'py':
     return None
+  bad = compare_cells(spec, cells, avals)
+  if bad and 'multi-line-string' in spec.features:
+    alt_text = with_blank_string_lines_unindented(formula)
+    if alt_text is not None:
+      alt = translate(alt_text)
+      if alt.status == 'valid' and compare_cells(alt, cells, avals) is None:
+        return ('valid-formula:multi-line-string-whitespace-only-line-altered',
+                bad[1] + ' (the cells match the text with whitespace-only string lines stripped of 4 spaces)', bad[2])
+  return bad
+
+
+def compare_cells(spec, cells, avals):
   for i, a in enumerate(avals):
     exp = evaluate(spec, i + 1, a)
     cell = cells[i]
@@ -375,8 +429,6 @@ def check_f(doc, spec, avals, kind):
       if cell != exp[1]:
         if eqv.is_error_cell(cell):
           kindsig = 'engine-error:%s' % (cell[1] if len(cell) > 1 else '?')
-        elif 'multi-line-string' in spec.features and _strip_blank_line_ws(cell) == _strip_blank_line_ws(exp[1]):
-          kindsig = 'multi-line-string-whitespace-only-line-altered'
         else:
           kindsig = 'value-differs'
         return ('valid-formula:' + kindsig, 'F[%d] (A=%r) holds %r; the text evaluates to %r' % (i + 1, a, cell, exp[1]),
@@ -422,7 +474,7 @@ def run_formula(out, doc, formula, avals, a2, kind, spec):
                  {'formula': formula})
         return False
     else:
-      f = check_f(doc, sp, cur, kind)
+      f = check_f(doc, sp, cur, kind, formula)
       if f:
         out.fail('C19:' + f[0], 'after %s with formula %r: %s' % (name, formula, f[1]),
                  dict(f[2] or {}, formula=formula, step=name, status=sp.status))
